@@ -1622,12 +1622,13 @@ def run_delta_pty(ctx, args, stdin_bytes, env=None, timeout=20):
             out += d
         elif p.poll() is not None:
             break
-    if p.poll() is None:
+    try:
+        p.wait(timeout=5)       # the slave side is closed (EIO / EOF): the process is exiting
+    except subprocess.TimeoutExpired:
         p.kill()
         p.wait()
         os.close(master)
         return "timeout", out
-    p.wait()
     os.close(master)
     return p.returncode, out
 
@@ -1656,7 +1657,7 @@ def bm_check_rows(rep, replay, out, sig):
     return dec, 0
 
 
-BM_ROW_FRONT = re.compile(rb"^(\x1b\[(?:48;[0-9;]*)m)")
+BM_ROW_FRONT = re.compile(rb"^(\x1b\[[0-9;]*m)")
 
 
 def blame_binary_oracle(ctx, rep, mdl):
@@ -1698,7 +1699,7 @@ def blame_binary_oracle(ctx, rep, mdl):
             rc, out = run_delta_pty(ctx, a, inp, env=BM_ENV)
         else:
             rc, out, _ = ctx.run_delta(a, inp, env=BM_ENV, timeout=20)
-        hook_args = [x for x in a if x not in ("--paging=never",)]
+        hook_args = [x for x in a if x not in ("--paging=never", "--no-gitconfig")]       # `cfg` implies --no-gitconfig
         items, facts = bm_hook_facts(ctx, hook_args, lines)
         return rc, out, items, facts
     results = parallel_map(one, jobs, workers=4)
@@ -1729,10 +1730,10 @@ def blame_binary_oracle(ctx, rep, mdl):
                 continue
             commit, author, ts = pr
             reqs.append(bm_model_request(bw, info, on_tty, items, ts, author, commit))
-            metas.append((replay, l, row, len(metas) and metas[-1][0] is replay))
+            metas.append((replay, l, row))
     model = mdl.ask(reqs) if mdl else []
     prev_key = {}
-    for (replay, l, row, same_run), q, m in zip(metas, reqs, model):
+    for (replay, l, row), q, m in zip(metas, reqs, model):
         if not m.startswith("ok "):
             rep.corr_case("blame_meta/binary", False, dict(replay, line=l, request=q, model=m[:300]))
             continue
